@@ -11,6 +11,8 @@ def scenarios(thorough):
         {"name": "iss-sgp4-60", "orbit": "iss", "propagator": "sgp4", "step": 60, "duration": 10800, "listeners": ALL},
         {"name": "molniya-sgp4-600", "orbit": "molniya", "propagator": "sgp4", "step": 600, "duration": 50400,
          "listeners": ["node", "apside", "anomaly:eccentric:2.0", "anomaly:aol:0.5", "signal", "max", "umbra", "radial"]},
+        {"name": "molniya-sgp4-asia-300", "orbit": "molniya", "propagator": "sgp4", "step": 300, "duration": 54000, "offset": 120000,
+         "listeners": ["signal@asia", "max@asia", "radial@asia", "signal@south", "max@south", "apside"]},
         {"name": "leo-kepler-180", "orbit": "kep", "kep": [7100e3, 0.05, 1.2], "propagator": "kepler", "step": 180, "duration": 10800,
          "listeners": ["node", "apside", "anomaly:true:4.0", "anomaly:mean:0.3", "terminator", "penumbra", "signal10"]},
         {"name": "iss-ephem-45", "orbit": "iss", "propagator": "ephem", "step": 60, "ephem_step": 45, "duration": 7200,
